@@ -147,7 +147,10 @@ def add_obligations(rep, ctx):
     def put_prop(p):
         ins = called(p, r"Tree.*::insert$|::insert$")
         if not ins:
-            return None
+            # a path that reaches the point of storing (the entry was serialised / the mtime was read) and returns Ok without an
+            # unconditional insert does not replace an existing entry (compare_and_swap, an `if !contains_key` ...)
+            reached = called(p, r"Metadata::len$") and p.status == "return" and isinstance(p.result, EnumV) and p.result.variant == "Ok"
+            return z3.BoolVal(False) if reached else None
         v = summaries.deref_val(eng, _st(p), ins[0].args[2]) if len(ins[0].args) > 2 else None
         if not isinstance(v, Agg):
             return z3.BoolVal(False)
